@@ -312,3 +312,47 @@ pub fn sym_tag(o: &Op) -> String {
         _ => o.k.name().to_string(),
     }
 }
+
+
+/// Apply the operations of one symbol with the k-th SPI write (counted from the start of the symbol)
+/// failing. Returns Some(short name of the call that returned the error) when a call failed with the
+/// injected error, None when the fault index lies beyond the symbol or the call panicked.
+pub fn apply_symbol_with_fault(rig: &mut Rig, sym: &[Op], k: u64, id: u32) -> Option<String> {
+    rig.board.borrow_mut().arm_fault(k, id);
+    let mut failed = None;
+    for o in sym {
+        let out = rig.apply(o);
+        if !out.is_ok() {
+            if matches!(out, Outcome::Err(_)) && !rig.poisoned {
+                failed = Some(o.short());
+            }
+            break;
+        }
+    }
+    rig.board.borrow_mut().disarm_fault();
+    failed
+}
+
+/// number of SPI writes the symbol makes when nothing fails, in the state `rig` is in (dry run on a clone is not
+/// possible, so the caller passes a rig prepared the same way); 0 when an operation fails
+pub fn symbol_transfers(rig: &mut Rig, sym: &[Op]) -> u64 {
+    let w0 = rig.board.borrow().spi_writes;
+    for o in sym {
+        if !rig.apply(o).is_ok() {
+            return 0;
+        }
+    }
+    rig.board.borrow().spi_writes - w0
+}
+
+/// fault indices worth trying inside a symbol of `n` transfers: the first few (commands and parameters),
+/// points inside the bulk data and the last ones
+pub fn fault_points(n: u64, dense_head: u64) -> Vec<u64> {
+    let mut ks: Vec<u64> = (0..n.min(dense_head)).collect();
+    for k in [n / 5, n / 3, n / 2, (2 * n) / 3, n.saturating_sub(3), n.saturating_sub(2), n.saturating_sub(1)] {
+        if k < n && !ks.contains(&k) {
+            ks.push(k);
+        }
+    }
+    ks
+}
